@@ -13,5 +13,6 @@ import "verifharness/vt"
 func init() {
 	vt.PropertyID = "C20"
 	vt.Register("queue", 10.0, genQCase, checkQCase)
+	vt.Register("queue-gated", 10.0, genGCase, checkGCase)
 	vt.Register("statesync", 1.0, genSCase, checkSCase)
 }
